@@ -17,13 +17,25 @@ import ptera.overlay as O
 import ptera.probe as PR
 
 T = sys.modules["ptera.transform"]
-WATCH = sched.codes_of(T.StackedTransforms) + sched.codes_of(T.SyncedStackedTransforms) + sched.codes_of(T.TransformSet) \
-    + [O._tooler.__code__, O._untooler.__code__, O.autotool.__code__] + [PR.Probe._enter.__code__, PR.Probe._exit.__code__,
-                                                                          PR.Probe._install_tooling.__code__, PR.Probe._uninstall_tooling.__code__]
+def _codes(mod, pick=lambda name: True):
+    """code objects of the functions and methods defined in a ptera module (whatever they are called in this tree)"""
+    out = []
+    for name, v in vars(mod).items():
+        if isinstance(v, type) and v.__module__ == mod.__name__:
+            out += [c for n, c in ((f.__name__, f.__code__) for f in vars(v).values() if hasattr(f, "__code__")) if pick(name + "." + n)]
+        elif hasattr(v, "__code__") and getattr(v, "__module__", None) == mod.__name__ and pick(name):
+            out.append(v.__code__)
+    return out
+
+
+# the tooling: everything in ptera.transform, and what overlay / probe do to install and remove it
+WATCH = _codes(T, lambda n: n.split(".")[0] in ("StackedTransforms", "SyncedStackedTransforms", "TransformSet")) \
+    + _codes(O, lambda n: "tool" in n.lower()) + _codes(PR, lambda n: n.startswith("Probe.") and ("tool" in n.lower() or n in ("Probe._enter", "Probe._exit")))
+if len(WATCH) < 8:
+    WATCH = _codes(T) + _codes(O, lambda n: "tool" in n.lower()) + _codes(PR, lambda n: n.startswith("Probe._"))
 import ptera.interpret as IN
 # the call path: what every call of an instrumented function runs (handler matching, its caches, the interaction)
-WATCH_CALL = sched.codes_of(O.HandlerCollection) + sched.codes_of(O.BaseOverlay) + sched.codes_of(IN.Interactor) \
-    + sched.codes_of(IN.WorkingFrame) + [getattr(O, n).__code__ for n in ("fits_selector",) if hasattr(O, n)]
+WATCH_CALL = [c for c in _codes(O) + _codes(IN, lambda n: n.split(".")[0] in ("Interactor", "WorkingFrame")) if c not in WATCH]
 # D and E use the very same selector text: the compiled selector is interned, whatever is cached per selector is shared
 SEL = {"A": ("f > a", "a", lambda x: x + 1), "B": ("f > b", "b", lambda x: (x + 1) * 2), "C": ("f(a) > b", "b", lambda x: (x + 1) * 2),
        "D": ("f > a", "a", lambda x: x + 1), "E": ("f > a", "a", lambda x: x + 1),
